@@ -70,6 +70,9 @@ impl WriteBatch {
 
 struct KeyValueStoreState {
     seq_no: u64,
+    // The highest sequence number whose write (and every write before it) has completed.  Reads
+    // happen at this timestamp so that they never observe a write that is still being applied.
+    completed_seq_no: u64,
     imm: Option<Arc<MemTable>>,
     imm_trigger: u64,
     mem: Arc<MemTable>,
@@ -114,6 +117,7 @@ impl KeyValueStore {
         seq_no += 1;
         let state = Mutex::new(KeyValueStoreState {
             seq_no,
+            completed_seq_no: seq_no,
             imm,
             imm_trigger,
             mem,
@@ -251,10 +255,12 @@ impl KeyValueStore {
                 ))?;
                 state.mem_seq_no = state.seq_no;
                 state.seq_no += 1;
+                let seq_no = state.seq_no;
                 let mut wait_guard = self.wait_list.link(());
                 while !wait_guard.is_head() {
                     state = wait_guard.naked_wait(state);
                 }
+                state.completed_seq_no = std::cmp::max(state.completed_seq_no, seq_no);
                 drop(wait_guard);
                 self.wait_list.notify_head();
                 (imm, imm_log, imm_path, imm_trigger)
@@ -363,7 +369,7 @@ impl KeyValueStore {
     }
 
     pub fn write(&self, mut batch: WriteBatch) -> Result<(), SError> {
-        let (mut wait_guard, memtable, log) = {
+        let (mut wait_guard, memtable, log, seq_no) = {
             let mut state = self.state.lock().unwrap();
             let wait_guard = self.wait_list.link(());
             let seq_no = state.seq_no + 1;
@@ -380,6 +386,7 @@ impl KeyValueStore {
                 wait_guard,
                 Arc::clone(&state.mem),
                 Arc::clone(&state.mem_log),
+                seq_no,
             )
         };
         let mut log_batch = sst::log::WriteBatch::default();
@@ -398,6 +405,8 @@ impl KeyValueStore {
         while !wait_guard.is_head() {
             state = wait_guard.naked_wait(state);
         }
+        // Every write with a lower sequence number has completed, so ours becomes visible now.
+        state.completed_seq_no = std::cmp::max(state.completed_seq_no, seq_no);
         drop(wait_guard);
         self.wait_list.notify_head();
         Ok(())
@@ -409,7 +418,7 @@ impl KeyValueStore {
             let mem = Arc::clone(&state.mem);
             let imm = state.imm.clone();
             let version = self.tree.take_snapshot();
-            (mem, imm, version, state.seq_no)
+            (mem, imm, version, state.completed_seq_no)
         };
         *is_tombstone = false;
         let ret = mem.load(key, timestamp, is_tombstone)?;
@@ -436,7 +445,7 @@ impl KeyValueStore {
             let mem = Arc::clone(&state.mem);
             let imm = state.imm.clone();
             let version = self.tree.take_snapshot();
-            (mem, imm, version, state.seq_no)
+            (mem, imm, version, state.completed_seq_no)
         };
         let mut cursors: Vec<Box<dyn Cursor>> = Vec::with_capacity(3);
         let mut mem_scan = mem.range_scan(start_bound, end_bound, timestamp)?;
